@@ -27,6 +27,7 @@ type c19Reader struct {
 	k       int
 	sticky  bool
 	partial bool
+	eighths int // with partial: the part of the buffer that is filled before the error (default 4/8)
 	failed  int
 }
 
@@ -37,7 +38,11 @@ func (r *c19Reader) ReadAt(p []byte, off int64) (int, error) {
 		n := 0
 		if r.partial && off >= 0 && off < int64(len(r.data)) {
 			// a short read followed by the error, as a dying device would do
-			n = copy(p[:len(p)/2], r.data[off:])
+			e := r.eighths
+			if e == 0 {
+				e = 4
+			}
+			n = copy(p[:len(p)*e/8], r.data[off:])
 		}
 		return n, c19Injected
 	}
@@ -235,11 +240,21 @@ func TestVerifC19(t *testing.T) {
 	modes := []pdf.ReaderErrorHandling{pdf.ErrorHandlingRecover, pdf.ErrorHandlingReport, pdf.ErrorHandlingStop}
 	modeNames := []string{"Recover", "Report", "Stop"}
 
-	r.Phase("read-faults", r.N(96, 1200), func(c *kit.Case) {
+	readFaults := func(c *kit.Case, updated bool) {
 		cfg := gen.RandomConfig(c.Rng, c.Index%144)
 		cfg.MaxOps = 2 + c.Rng.Intn(6)
 		cfg.WithMetadata = c.Rng.Bool()
 		cfg.PlaintextMetadata = c.Rng.Bool()
+		if updated {
+			// a file with an incremental update: the last two startxref keywords
+			// are close to each other (classic cross-reference tables, no encryption)
+			cfg = c20Config(c)
+			cfg.Version = gen.Versions[c.Index%5]
+			if cfg.Version < pdf.V1_1 {
+				cfg.ID = nil
+			}
+			cfg.MaxOps = 1 + c.Rng.Intn(4)
+		}
 		d, err := gen.BuildDoc(c.Rng, cfg)
 		if err != nil {
 			c.Violationf("writer-refused-valid-call", "%v", err)
@@ -254,6 +269,25 @@ func TestVerifC19(t *testing.T) {
 			refs = append(refs, o.Ref)
 		}
 		refs = append(refs, d.Unwritten...)
+		nvariants := 3
+		if updated {
+			truth, xf := c20Truth(c, d)
+			if truth == nil || xf.XRefKind != "table" {
+				return
+			}
+			u := c20AppendUpdate(c.Rng, d, truth, xf)
+			if u == nil {
+				return
+			}
+			d2 := *d
+			d2.Data = u.data
+			d = &d2
+			for _, nd := range u.defs {
+				refs = append(refs, nd.ref)
+			}
+			nvariants = 5
+			c.R.Count("documents_with_incremental_update", 1)
+		}
 		mi := c.Index % 3
 		mode := modes[mi]
 		base := &c19Reader{data: d.Data}
@@ -270,9 +304,9 @@ func TestVerifC19(t *testing.T) {
 			want[s.label] = s.val
 		}
 		for k := 1; k <= n; k++ {
-			for variant := 0; variant < 3; variant++ {
-				src := &c19Reader{data: d.Data, k: k, sticky: variant == 0, partial: variant == 2}
-				vname := []string{"from-k-on", "only-k", "only-k-short-read"}[variant]
+			for variant := 0; variant < nvariants; variant++ {
+				src := &c19Reader{data: d.Data, k: k, sticky: variant == 0, partial: variant >= 2, eighths: []int{0, 0, 4, 7, 6}[variant]}
+				vname := []string{"from-k-on", "only-k", "only-k-short-read", "only-k-short-read-7/8", "only-k-short-read-6/8"}[variant]
 				got := c19Scenario(d, src, mode, refs)
 				c.R.Count("fault_runs", 1)
 				if src.failed == 0 {
@@ -312,9 +346,11 @@ func TestVerifC19(t *testing.T) {
 		c.Distinct(fmt.Sprintf("%s|%s|%d|%d", cfg.Cell(), strings.Join(d.Ops, " "), len(d.Data), mi))
 		if c.WantSample() {
 			c.Sample(map[string]any{"config": cfg.String(), "mode": modeNames[mi], "ops": strings.Join(d.Ops, " "),
-				"readat_calls": n, "fault_indices_enumerated": n, "variants": 3})
+				"readat_calls": n, "fault_indices_enumerated": n, "variants": nvariants})
 		}
-	})
+	}
+	r.Phase("read-faults", r.N(96, 1200), func(c *kit.Case) { readFaults(c, false) })
+	r.Phase("read-faults-updated-file", r.N(48, 600), func(c *kit.Case) { readFaults(c, true) })
 
 	r.Phase("write-faults", r.N(600, 8000), func(c *kit.Case) {
 		cfg := gen.RandomConfig(c.Rng, c.Index%144)
